@@ -39,8 +39,11 @@ def rand_decl(rng):
         d["packets"].append((off, f))
         off += SIZE[f]
     if rng.random() < 0.5:
-        d["dict"] = dict(key=rng.choice([["I"], ["H", "B", "B"], ["Q", "I"]]),
-                         val=rng.choice([["Q"], ["I", "H", "H"], ["q", "I", "B", "B"]]))
+        # incl. fixed-point members (8 bytes in memory) followed by narrow ones: added after a seeded change (a
+        # member's size taken with struct.calcsize, for which 'x' is a pad byte) went unnoticed
+        d["dict"] = dict(key=rng.choice([["I"], ["H", "B", "B"], ["Q", "I"], ["x", "B", "B"]]),
+                         val=rng.choice([["Q"], ["I", "H", "H"], ["q", "I", "B", "B"], ["x", "B", "B"], ["x", "x", "H"],
+                                         ["Q", "x", "B"]]))
     ncls = 0 if nsub == 0 else rng.randint(1, nsub)
     for _ in range(ncls):
         d["subcls"].append(dict(locals=[rng.choice(FMTS) for _ in range(rng.randint(1, 3))],
